@@ -15,7 +15,8 @@ func init() {
 
 // HarnessC17: a = {client: 0 tunnel, 1 router, 2 group layer, 3 tunnel through handleTunnelReq (UDP),
 // 4 the same in TCP mode; k telegrams; consumer: 0 always
-// waiting, 1 absent during the burst, 2 takes one telegram then stalls}. The server side
+// waiting, 1 absent during the burst, 2 takes one telegram then stalls, 3 takes one telegram, stalls and resumes
+// in the middle of the burst}. The server side
 // accepts m1..mk in order; the application must see them in that order.
 func HarnessC17(a []int) {
 	client, k, mode := a[0], a[1], a[2]
@@ -51,8 +52,8 @@ func HarnessC17(a []int) {
 		verifDaemon()
 		n := 0
 		for {
-			if mode == 1 || (mode == 2 && n == 1) {
-				<-gate // stalled until the burst is over
+			if mode == 1 || ((mode == 2 || mode == 3) && n == 1) {
+				<-gate // stalled until the burst is over (mode 3: until the server is half way through)
 			}
 			id, ok := next()
 			if !ok {
@@ -88,11 +89,16 @@ func HarnessC17(a []int) {
 			verifQuiesce()
 		}
 	} else {
-		for _, m := range msgs {
+		for i, m := range msgs {
+			if mode == 3 && i == (k+1)/2 {
+				close(gate)
+			}
 			push(m)
 		}
 	}
-	close(gate)
+	if !(mode == 3 && client != 2) {
+		close(gate)
+	}
 	verifQuiesce()
 	verifAssert("C17.all_delivered", len(order) == k)
 	for i, id := range order {
